@@ -99,10 +99,20 @@ def signed_log(rng, lo, hi):
 
 def make_field(rng, n, n_pol):
     shape = (2, n) if n_pol == 2 else (n,)
-    kind = int(rng.integers(3))
+    kind = int(rng.integers(4))
     t = np.arange(n)
-    if kind == 0:
-        s = rng.normal(0, 1, shape) + 1j * rng.normal(0, 1, shape)
+    if kind == 3:      # phase-coded fields with an exactly flat envelope (BPSK +-a, QPSK (+-1+-j)a, the fs/4 tone 1,j,-1,-j): not CW, they disperse
+        sub = int(rng.integers(3))
+        if sub == 0:
+            s = (2.0 * rng.integers(0, 2, shape) - 1) + 0j
+        elif sub == 1:
+            s = (2.0 * rng.integers(0, 2, shape) - 1) + 1j * (2.0 * rng.integers(0, 2, shape) - 1)
+        else:
+            s = np.broadcast_to(np.array([1, 1j, -1, -1j])[t % 4], shape).copy()
+        if n >= 8 and rng.integers(2):
+            s = np.repeat(s[..., : (n + 3) // 4], 4, axis=-1)[..., :n]          # 4 samples per symbol
+    elif kind == 0:
+        s = core.lopsided(rng, rng.normal(0, 1, shape) + 1j * rng.normal(0, 1, shape))
     elif kind == 1:    # band-limited pulse train
         s = np.zeros(shape, complex)
         for _ in range(3):
